@@ -109,6 +109,9 @@ def discharge(jobs, budget_s=10.0, nproc=None, portfolio=True):
     """jobs: list of dicts {id, query: [z3 Bool...] (to be checked for unsat), model_terms: {name: term}}.
     Returns dict id -> result dict."""
     nproc = nproc or min(16, os.cpu_count() or 4)
+    full_budget = budget_s
+    if portfolio:
+        budget_s = min(budget_s, 3.0)      # first stage is short: what z3 5.1 proves, it proves quickly; the rest goes to the portfolio at the full budget
     pending = list(jobs)
     running = {}     # pid -> (job, rfd, deadline, t0)
     results = {}
@@ -157,17 +160,43 @@ def discharge(jobs, budget_s=10.0, nproc=None, portfolio=True):
         if not done:
             time.sleep(0.005)
     if portfolio:
-        for job in jobs:
-            res = results[job["id"]]
-            if res["status"] == "unknown":
+        budget_s = full_budget
+        unknown = [job for job in jobs if results[job["id"]]["status"] == "unknown"]
+        if unknown:
+            from concurrent.futures import ThreadPoolExecutor
+            texts = {}
+            for job in unknown:
                 try:
-                    s = z3.Solver()
+                    sv = z3.Solver()
                     for a in job["query"]:
-                        s.add(a)
-                    text = s.to_smt2()
+                        sv.add(a)
+                    texts[job["id"]] = sv.to_smt2()
                 except Exception:
-                    continue
-                ext = run_external(text, budget_s)
-                if ext is not None and ext[0] == "proved":
-                    res.update({"status": "proved", "solver": ext[1], "time_s": ext[2], "first_solver_reason": res.get("reason")})
+                    pass
+
+            def one(args):
+                jid, name, cmd_fn = args
+                t0 = time.time()
+                with tempfile.NamedTemporaryFile("w", suffix=".smt2", delete=False, dir="/dev/shm" if os.path.isdir("/dev/shm") else None) as f:
+                    f.write(texts[jid])
+                    path = f.name
+                try:
+                    p = subprocess.run(cmd_fn(path), capture_output=True, text=True, timeout=budget_s * 1.5 + 2)
+                    first = (p.stdout.strip().splitlines() or [""])[0].strip()
+                except subprocess.TimeoutExpired:
+                    first = "timeout"
+                finally:
+                    os.unlink(path)
+                return jid, name, first, round(time.time() - t0, 3)
+            stages = [[("cvc5-1.0.3", lambda p: ["/usr/bin/cvc5", "--strings-exp", f"--tlimit={int(budget_s * 1000)}", p])],
+                      [("z3-4.8.12", lambda p: ["/usr/bin/z3", f"-T:{int(budget_s)}", p]), ("z3-5.1-cli", lambda p: ["z3-new", f"-T:{int(budget_s)}", p])]]
+            for stage in stages:
+                tasks = [(jid, name, fn) for jid in texts if results[jid]["status"] == "unknown" for name, fn in stage]
+                if not tasks:
+                    break
+                with ThreadPoolExecutor(max_workers=nproc) as ex:
+                    for jid, name, first, dt in ex.map(one, tasks):
+                        res = results[jid]
+                        if first == "unsat" and res["status"] == "unknown":
+                            res.update({"status": "proved", "solver": name, "time_s": dt, "first_solver_reason": res.get("reason")})
     return results
